@@ -1,4 +1,4 @@
-from typing import TYPE_CHECKING, List, Set, Tuple, Dict
+from typing import TYPE_CHECKING, List, Set, Tuple, Dict, Callable, Optional, Union
 
 from tealer.analyses.dataflow.transaction_context.generic import DataflowTransactionContext
 from tealer.analyses.dataflow.transaction_context.utils.key_helpers import (
@@ -45,6 +45,17 @@ transaction_type_key = "TransactionType"
 base_keys = [transaction_type_key]
 universal_sets: Dict[str, List] = {}
 universal_sets[transaction_type_key] = list(ALL_TRANSACTION_TYPES)
+
+
+def _known_constant(
+    convert: Callable[[Union[str, int]], "TealerTransactionType"], value: Union[str, int]
+) -> Optional["TealerTransactionType"]:
+    """Return the label of a TypeEnum/OnCompletion constant, None if the constant is not a defined one."""
+    try:
+        return convert(value)
+    except KeyError:
+        # e.g. `txn TypeEnum; int 0; ==`: no information is derived from the comparison
+        return None
 
 
 class TxnType(DataflowTransactionContext):  # pylint: disable=too-few-public-methods
@@ -160,26 +171,30 @@ class TxnType(DataflowTransactionContext):  # pylint: disable=too-few-public-met
                     ) - set([TealerTransactionType.ApplCreation])
 
             if is_value_matches_key(key, arg1, TypeEnum) and value_3 is not None:
-                compared_type = transaction_type_to_tealer_type(value_3)
-                true_values, false_values = set([compared_type]), set(
-                    TYPEENUM_TRANSACTION_TYPES
-                ) - set([compared_type])
+                compared_type = _known_constant(transaction_type_to_tealer_type, value_3)
+                if compared_type is not None:
+                    true_values, false_values = set([compared_type]), set(
+                        TYPEENUM_TRANSACTION_TYPES
+                    ) - set([compared_type])
             elif is_value_matches_key(key, arg2, TypeEnum) and value_2 is not None:
-                compared_type = transaction_type_to_tealer_type(value_2)
-                true_values, false_values = set([compared_type]), set(
-                    TYPEENUM_TRANSACTION_TYPES
-                ) - set([compared_type])
+                compared_type = _known_constant(transaction_type_to_tealer_type, value_2)
+                if compared_type is not None:
+                    true_values, false_values = set([compared_type]), set(
+                        TYPEENUM_TRANSACTION_TYPES
+                    ) - set([compared_type])
 
             if is_value_matches_key(key, arg1, OnCompletion) and value_3 is not None:
-                compared_on_completion = oncompletion_to_tealer_type(value_3)
-                true_values, false_values = set([compared_on_completion]), set(
-                    APPLICATION_TRANSACTION_TYPES
-                ) - set([compared_on_completion])
+                compared_on_completion = _known_constant(oncompletion_to_tealer_type, value_3)
+                if compared_on_completion is not None:
+                    true_values, false_values = set([compared_on_completion]), set(
+                        APPLICATION_TRANSACTION_TYPES
+                    ) - set([compared_on_completion])
             elif is_value_matches_key(key, arg2, OnCompletion) and value_2 is not None:
-                compared_on_completion = oncompletion_to_tealer_type(value_2)
-                true_values, false_values = set([compared_on_completion]), set(
-                    APPLICATION_TRANSACTION_TYPES
-                ) - set([compared_on_completion])
+                compared_on_completion = _known_constant(oncompletion_to_tealer_type, value_2)
+                if compared_on_completion is not None:
+                    true_values, false_values = set([compared_on_completion]), set(
+                        APPLICATION_TRANSACTION_TYPES
+                    ) - set([compared_on_completion])
 
             if true_values is not None and false_values is not None:
                 if isinstance(ins1, Eq):
